@@ -126,6 +126,16 @@ Proof. exact (l007_check_exact letter digit upper keywords_tab). Qed.
 Theorem C17_l007_location : forall t n col, In (n, col) (i_l007_check t) ->
   exists fl, nth_error (clines t) (n - 1) = Some fl /\ 1 <= n <= length (clines t) /\ 1 <= col <= S (blen (chars (snd fl))).
 Proof. exact (l007_location letter digit upper keywords_tab). Qed.
+(* L010 redundant whitespace: a maximal run of two or more code spaces (cspace_run) that is not indentation (some byte up
+   to the first space of the run is neither space nor tab); the column is the byte column of the first space of the run *)
+Theorem C17_l010_check_exact : forall t n col,
+  In (n, col) (l010_check t) <->
+  exists fl pre r post, nth_error (clines t) (n - 1) = Some fl /\ 1 <= n /\ cspace_run (snd fl) pre r post /\
+    indent_bytes (snd fl) col = false /\ col = S (blen (chars pre)).
+Proof. exact l010_check_exact. Qed.
+Theorem C17_l010_location : forall t n col, In (n, col) (l010_check t) ->
+  exists fl, nth_error (clines t) (n - 1) = Some fl /\ 1 <= n <= length (clines t) /\ 1 <= col <= S (blen (chars (snd fl))).
+Proof. exact l010_location. Qed.
 (* L005 long lines: a non-empty line that does not start with a comment opener and is longer than the limit, in bytes *)
 Theorem C17_l005_check_exact : forall mx t n col,
   In (n, col) (i_l005_check mx t) <->
@@ -169,6 +179,8 @@ Print Assumptions C17_l002_location.
 Print Assumptions C17_l003_check_exact.
 Print Assumptions C17_l003_location.
 Print Assumptions C17_l005_check_exact.
+Print Assumptions C17_l010_check_exact.
+Print Assumptions C17_l010_location.
 Print Assumptions C17_l007_check_exact.
 Print Assumptions C17_l007_location.
 
@@ -182,4 +194,6 @@ Proof. vm_compute. reflexivity. Qed.
 Example ex_l001_flags : l001_check (decode ex_bytes) = [(4, 6); (7, 8)]%nat.
 Proof. vm_compute. reflexivity. Qed.
 Example ex_l007_flags : i_l007_check (decode ex_bytes) = [(1, 1); (7, 2)]%nat.
+Proof. vm_compute. reflexivity. Qed.
+Example ex_l010_flags : l010_check (decode ex_bytes) = [(1, 7)]%nat.
 Proof. vm_compute. reflexivity. Qed.
